@@ -23,7 +23,7 @@ META = {
     "bounds": {"quick": "region-bearing structure types (seed-rotated) lengths m..min(m+3,8); shapes of 10 seed-rotated command codes + core",
                "thorough": "all structure types lengths 0..min(m+4,12); all command codes; pairs of size fields"},
     "outside": "inputs neither within N nor an instance of an explored shape",
-    "wall_budget_s": {"quick": 270, "thorough": 1500},
+    "wall_budget_s": {"quick": 270, "thorough": 840},
 }
 CORE = ("Startup", "GetRandom", "Commit", "StartAuthSession")
 SIZE_ROOTS = (".commandSize", ".responseSize")
